@@ -5659,6 +5659,50 @@ def c17_mixture_functions():
     return out
 
 
+def c16_check_linear():
+    """Demes.IntegrationNonConst.check_linear on a recorded history of 5 time points (times t0 < .. < t4 symbolic, t0 NOT assumed 0; two populations):
+    for a population whose recorded sizes lie exactly on the line through its first and last size, every size the function predicts for a checked
+    step equals the recorded one (so the epoch is exported as linear); numpy.allclose is abstract and its two arguments are compared exactly;
+    the steps checked lie strictly inside the history."""
+    oid = 'C16/Demes/__init__.py:IntegrationNonConst.check_linear'
+    fn = 'dadi/Demes/__init__.py::IntegrationNonConst.check_linear'
+
+    @guarded(oid, fn)
+    def go():
+        n = 5
+        ts = reals('t', n)
+        A, B = z3.Reals('N_first N_last')
+        other = reals('M', n)
+        hy = [ts[i] < ts[i + 1] for i in range(n - 1)] + [A > 0, B > 0]
+        lin = [A + (B - A) * (ts[i] - ts[0]) / (ts[n - 1] - ts[0]) for i in range(n)]
+        lin[0], lin[n - 1] = A, B
+        hist = VList([VList([ts[i], VList([lin[i], other[i]]), VList([])]) for i in range(n)])
+        me = Tm('self')
+        me.attrs.update(history=hist, duration=ts[n - 1] - ts[0])
+        seen = []
+
+        def ah(ex_, fref, a, kw, ctx):
+            if 'allclose' in vrepr(fref):
+                seen.append((a[0], a[1]))
+                return True
+            return NotImplemented
+        ex = Executor()
+        ex.abstract_hook = ah
+        f = ex.func('dadi/Demes/__init__.py', 'IntegrationNonConst.check_linear')
+        paths = ex.run(f, [me], {}, base_pc=hy)
+        if len(paths) != 1 or paths[0].outcome != 'return':
+            return [struct(oid, False, 'expected one returning path: %r' % paths[:2], fn, undecided=True)]
+        pc = hy + list(paths[0].pc)
+        mine = [(a, b) for a, b in seen if any(isinstance(exact(b), z3.ExprRef) and exact(b).eq(l) for l in lin)]
+        out = [struct(oid + '.steps', len(mine) >= 2, '%d predictions compared with recorded sizes of the linear population' % len(mine), fn, finding_key='C16/check_linear')]
+        goals = [(to_real(exact(a)) == to_real(exact(b)), 'predicted size at a checked step == recorded size') for a, b in mine]
+        mm = discharge(goals, pc)
+        out.append(struct(oid + '.prediction', mm is None, mm or 'for an exactly linear history every prediction equals the recorded size (whatever the first time stamp)', fn,
+                          finding_key='C16/check_linear'))
+        return out
+    return go()
+
+
 def c16_size_at():
     """DemesUtil._size_at(t, N0, N1, t0, t1, f) for t0 > t >= t1 (demes time runs backwards: the epoch starts at t0 with size N0 and ends at t1 with N1):
          constant    -> N0 (N0 == N1 asserted)
